@@ -164,6 +164,9 @@ func (e *specEnv) sortOfName(name string) (string, types.Type) {
 	if name == "mathint" {
 		return "Int", nil
 	}
+	if name == "introw" {
+		return "(Array Int Int)", nil
+	}
 	t := e.resolveType(name)
 	return e.vc.sortOf(t), t
 }
@@ -499,7 +502,9 @@ func (e *specEnv) tr(x Expr) specVal {
 			srt, t := e.sortOfName(qv.Typ)
 			bn := "q!" + qv.Name
 			bs = append(bs, fmt.Sprintf("(%s %s)", bn, srt))
-			if t == nil || qv.Typ == "int" {
+			if qv.Typ == "introw" {
+				ne.vars[qv.Name] = specVal{term: bn, kind: "row"}
+			} else if t == nil || qv.Typ == "int" {
 				ne.vars[qv.Name] = mathInt(bn)
 			} else {
 				ne.vars[qv.Name] = specVal{term: bn, typ: t}
@@ -712,6 +717,23 @@ func (e *specEnv) call(n *ECall) specVal {
 		}
 		h := e.heap("Gh.iter.seen."+sanitize(ks), "(Array Int (Array "+ks+" Bool))")
 		return mathBool(sx("select", sx("select", h, it), k.term))
+	case "rowof":
+		// rowof(T, a): the whole element row of array a (element type T) as a value; spec functions over rows are
+		// insensitive to heap versions that leave the row unchanged
+		id, ok := n.Args[0].(*EIdent)
+		if !ok {
+			e.fail("rowof needs a type name as first argument")
+		}
+		t := e.resolveType(id.Name)
+		srt := vc.sortOf(t)
+		h := e.heap(elemHeapName(t), "(Array Int (Array Int "+srt+"))")
+		return specVal{term: sx("select", h, e.trInt(n.Args[1])), kind: "row"}
+	case "rowat":
+		r := arg(0)
+		if r.kind != "row" {
+			e.fail("rowat needs a row")
+		}
+		return mathInt(sx("select", r.term, e.trInt(n.Args[1])))
 	case "bcell":
 		// bcell(a, p): byte at absolute position p of byte array a (robust under re-slicing)
 		h := e.heap("E.uint8", "(Array Int (Array Int Int))")
@@ -857,6 +879,10 @@ func (e *specEnv) specCall(sf *SpecFn, n *ECall) specVal {
 		ne := &specEnv{vc: vc, fr: nil, pkg: pkg, vars: map[string]specVal{}, st: e.st, old: e.old, symHeaps: e.symHeaps, symOrder: e.symOrder, symOld: e.symOld, symOldOrder: e.symOldOrder, symPrefix: e.symPrefix, depth: e.depth + 1, where: e.where + ">" + sf.Name}
 		for i, p := range sf.Params {
 			a := args[i]
+			if p.Typ == "introw" {
+				ne.vars[p.Name] = a
+				continue
+			}
 			if p.Typ != "mathint" && p.Typ != "int" {
 				pe := &specEnv{vc: vc, pkg: pkg, where: e.where}
 				t := pe.resolveType(p.Typ)
@@ -909,7 +935,9 @@ func (e *specEnv) specCall(sf *SpecFn, n *ECall) specVal {
 			binders = append(binders, fmt.Sprintf("(%s %s)", bn, srt))
 			psorts = append(psorts, srt)
 			pnames = append(pnames, bn)
-			if t == nil {
+			if p.Typ == "introw" {
+				be.vars[p.Name] = specVal{term: bn, kind: "row"}
+			} else if t == nil {
 				be.vars[p.Name] = mathInt(bn)
 			} else {
 				be.vars[p.Name] = specVal{term: bn, typ: t}
